@@ -1,4 +1,6 @@
 import BSModel.Proofs.Construct
+import BSModel.Proofs.Envelope
+import BSModel.Gen.C06Exc
 /-! # C06 — any `str`/`bytes` input yields a tree or `ParserRejectedMarkup`, never another failure
 
 Property theorems only. Claimed level: PARTIAL. The repository's own logic (pre-parse heuristics, numeric
@@ -11,6 +13,21 @@ The full-strength statement that is NOT proved here:
   `∀ markup from_encoding exclude_encodings, BeautifulSoup(markup, "html.parser", …) ∈ {tree, ParserRejectedMarkup}`
 for the real interpreter; what is missing is a model of `html.parser.HTMLParser.goahead`/`_markupbase` and of the
 codecs (outside the repository). -/
+/-! ## Clause → theorem
+
+| clause of the property | theorem(s) | strength |
+|---|---|---|
+| "from any str or bytes value, with any from_encoding/exclude_encodings, … or raises ParserRejectedMarkup; never raises any other exception" | `envelope`, `envelope_live` (+ `live_covers_recorded`); necessity `covers_necessary_*`, `v4130_does_not_cover`; per layer `lookup_escapes`, `decode_escapes`, `generator_escapes`, `feed_converts`, `tokenizer_escapes`; `injection_table`, `mro_table` against the live code | all markups, all behaviours of the primitives within `Gen.C06.recorded` (the named residue), all clause variants; the encoding arguments act only through the primitives (`cands`, `spellings`, `lookup`, `decode`) |
+| the pieces of that path inside the repository | `heuristics_total`, `heuristicsOld_error_iff`, `heuristics_agree_old`; `charref_total`, `charref_spec`, `charrefSpec_identity`, `cp1252_table`, `charref_envelope_live/_v4130/_spec`; `dammit_some_of_fallback`, `dammit_envelope_refines`, `dammitE_some_of_fallback`, `prepare_outcome`; `feed_outcome`, `constructor_outcome` | all inputs |
+| "returns a well-linked tree that can be rendered, searched and copied" | NOT here: well-linked for every event sequence is C03 `parsed_document_well_linked` / `parse_actions_well_linked`; rendering/search/copy are total functions in C05/C08/C10/C11/C12's models; here the direct Python oracle on every constructed tree | oracle |
+| "never leaves the object half-built" | `retry_ok_state`, `constructE_ok_state` (whenever the constructor returns: one complete accepted attempt, `finish` applied) | all strategy lists, all call paths |
+| "when a builder rejects one candidate part-way and a later one succeeds, nothing from the rejected attempt remains" | `reset_absorbs`, `retry_first_accept`, `retry_by_index`, `retry_all_reject`, `retry_raise_propagates`, `machineE_wf`; for the live code `feed_touches_reassigned`, `header_and_reset_fields` (whole instrumented tables) | all k, all states a rejected attempt can leave, given the frame conditions (`Machine.WF`), which the tables check for the live objects |
+| quantifier "lone surrogates, NULs, very long numeric references, every truncation" | `heuristics_total` (surrogates), `charref_total` (every name, any length), witnesses `*_fails_*`; truncations act only through the tokenizer primitive (`tokFeed`/`tokClose`) | model: all; tokenizer: recorded |
+| quantifier "BOMs, invalid sequences, bogus or python-specific declared charsets, all constructor encoding arguments" | `envelope` over all `cands`/`lookup`/`decode` behaviours; `dammitE_some_of_fallback` | all |
+| quantifier "all patterns of k rejections followed by acceptance" | `retry_first_accept`, `retry_by_index` | all k |
+
+Scope of "every call path": `BeautifulSoup.__init__` from the markup checks on (bs4/__init__.py:439-490). The lines before
+only call `warnings.warn` for deprecated arguments and the builder registry (C20). -/
 namespace BS.Props.C06
 open BS.Construct
 
@@ -69,22 +86,22 @@ theorem retry_by_index {V : Type} (m : Machine V) (R H : List Field) (wf : m.WF 
     (retry m o0 ss).2 = retryResult (retryIndex (ss.map fun s => (attempt m o0 s).2) 0) :=
   retry_by_index_aux m R H wf o0 ss o0 0 (AgreeOff.refl _ _)
 
-/-- Against the live objects (instrumented on every run, `Gen.ConstructTab`): every attribute of the soup or of its
+/-- Against the live objects (instrumented on every run, `Gen.C06.ConstructTab`): every attribute of the soup or of its
     builder that a feed — clean, or poisoned and rejected part-way — assigns or mutates is re-assigned by `reset()`,
     `initialize_soup` or the loop header before the next attempt. This is `Machine.WF.feedFrame` for the real code. -/
 theorem feed_touches_reassigned :
-    ∀ f ∈ Gen.feedTouches, f ∈ Gen.resetAssigns ++ Gen.attemptBuilderAssigns ++ Gen.headerAssigns := by
+    ∀ f ∈ Gen.C06.feedTouches, f ∈ Gen.C06.resetAssigns ++ Gen.C06.attemptBuilderAssigns ++ Gen.C06.headerAssigns := by
   decide +kernel
 
 /-- the loop header assigns exactly the four strategy fields, and `reset()` assigns the parser bookkeeping and the
     root's own linkage (so the table above is not vacuous) -/
 theorem header_and_reset_fields :
-    Gen.headerAssigns = ["markup", "original_encoding", "declared_html_encoding", "contains_replacement_characters"]
+    Gen.C06.headerAssigns = ["markup", "original_encoding", "declared_html_encoding", "contains_replacement_characters"]
     ∧ (∀ f ∈ ["contents", "attrs", "next_element", "next_sibling", "current_data", "currentTag", "tagStack",
               "open_tag_counter", "preserve_whitespace_tag_stack", "string_container_stack", "_most_recent_element",
               "hidden", "_namespaces"],
-        f ∈ Gen.resetAssigns)
-    ∧ Gen.feedTouches ≠ [] := by
+        f ∈ Gen.C06.resetAssigns)
+    ∧ Gen.C06.feedTouches ≠ [] := by
   decide +kernel
 
 /-! non-vacuity: a concrete machine satisfying `WF`, with a rejecting and an accepting strategy -/
@@ -310,28 +327,28 @@ theorem charref_spec (name : PStr) (n : Nat) (h : charrefNumber name = .ok n) :
   simp only
   unfold charrefFrom charrefSpec
   by_cases hn : n < 256
-  · have hle : n ≤ Gen.maxUnicode := by
-      have : (256 : Nat) ≤ Gen.maxUnicode := by decide
+  · have hle : n ≤ Gen.C06.maxUnicode := by
+      have : (256 : Nat) ≤ Gen.C06.maxUnicode := by decide
       omega
     simp only [hn, if_true]
-    cases hc : Gen.cp1252Decode[n]? with
+    cases hc : Gen.C06.cp1252Decode[n]? with
     | none => simp [tryDecode, cp1252, hc, charrefFinish, truthy, hle]
     | some v =>
       cases v with
       | none => simp [tryDecode, cp1252, hc, charrefFinish, truthy, hle]
       | some c => simp [tryDecode, cp1252, hc, charrefFinish, truthy]
   · simp only [hn, if_false]
-    by_cases hle : n ≤ Gen.maxUnicode
+    by_cases hle : n ≤ Gen.C06.maxUnicode
     · simp [charrefFinish, truthy, hle]
     · simp [charrefFinish, truthy, hle]
 
 /-- table fact over the live codec: Windows-1252 differs from the identity only on 128–159, never yields U+0000
     for a non-zero byte, and is defined on all of ASCII and Latin-1's upper half -/
 theorem cp1252_table :
-    Gen.cp1252Decode.length = 256 ∧
-    ∀ n, n < 256 → (n < 128 ∨ 160 ≤ n) → Gen.cp1252Decode[n]? = some (some n) := by
+    Gen.C06.cp1252Decode.length = 256 ∧
+    ∀ n, n < 256 → (n < 128 ∨ 160 ≤ n) → Gen.C06.cp1252Decode[n]? = some (some n) := by
   refine ⟨by decide +kernel, ?_⟩
-  have h : (List.range 256).all (fun n => !(n < 128 || 160 ≤ n) || Gen.cp1252Decode[n]? == some (some n)) = true := by
+  have h : (List.range 256).all (fun n => !(n < 128 || 160 ≤ n) || Gen.C06.cp1252Decode[n]? == some (some n)) = true := by
     decide +kernel
   intro n hn hr
   have := List.all_eq_true.mp h n (List.mem_range.mpr hn)
@@ -341,18 +358,18 @@ theorem cp1252_table :
 
 /-- so a reference to any code point outside 128–159 is that code point, and anything beyond U+10FFFF is U+FFFD -/
 theorem charrefSpec_identity (n : Nat) (h : n < 128 ∨ 160 ≤ n) :
-    charrefSpec n = if n ≤ Gen.maxUnicode then [n] else [0xFFFD] := by
+    charrefSpec n = if n ≤ Gen.C06.maxUnicode then [n] else [0xFFFD] := by
   unfold charrefSpec
   by_cases hn : n < 256
-  · have hle : n ≤ Gen.maxUnicode := by
-      have : (256 : Nat) ≤ Gen.maxUnicode := by decide
+  · have hle : n ≤ Gen.C06.maxUnicode := by
+      have : (256 : Nat) ≤ Gen.C06.maxUnicode := by decide
       omega
     simp [hn, cp1252_table.2 n hn h, hle]
   · simp [hn]
 
 /-- witness on the unrepaired mirror: a decimal reference one digit longer than `sys.int_max_str_digits` -/
 theorem handleCharrefOld_fails_long_decimal :
-    handleCharrefOld none (List.replicate (Gen.intMaxStrDigitsC06 + 1) 57) = .error .valueError := by
+    handleCharrefOld none (List.replicate (Gen.C06.intMaxStrDigitsC06 + 1) 57) = .error .valueError := by
   decide +kernel
 
 /-- witness on the unrepaired mirror: a document encoding whose one-byte decode raises something that is not a
@@ -360,7 +377,7 @@ theorem handleCharrefOld_fails_long_decimal :
 theorem handleCharrefOld_fails_codec :
     handleCharrefOld (some fun _ => .otherError) [49] = .error .unicodeError := by decide
 
-example : handleCharref none (List.replicate (Gen.intMaxStrDigitsC06 + 1) 57) = .ok [0xFFFD] := by decide +kernel
+example : handleCharref none (List.replicate (Gen.C06.intMaxStrDigitsC06 + 1) 57) = .ok [0xFFFD] := by decide +kernel
 example : handleCharref (some fun _ => .otherError) [49] = .ok [1] := by decide
 example : handleCharref none (BS.ofS "x41") = .ok [65] := by decide
 example : handleCharref none (BS.ofS "150") = .ok [0x2013] := by decide
@@ -552,7 +569,7 @@ theorem constructor_old_fails_on_surrogate {V : Type} (m : Machine V) (prep : Ma
     `constructor_old_fails_on_tokenizer_valueerror`) the live constructor of the working tree, run by the translator,
     ends in a tree or `ParserRejectedMarkup` — false of a tree without fixes/C06-*.diff. -/
 theorem live_code_returns_on_witnesses :
-    Gen.liveWitnesses.length = 4 ∧ ∀ p ∈ Gen.liveWitnesses, p.2 = true := by decide
+    Gen.C06.liveWitnesses.length = 4 ∧ ∀ p ∈ Gen.C06.liveWitnesses, p.2 = true := by decide
 
 /-- non-vacuity of `constructor_outcome`: a parser satisfying both hypotheses that rejects (tokenizer
     `AssertionError`) and one that accepts -/
@@ -576,5 +593,437 @@ example : (construct ⟨fun _ => [], fun _ => [], soupFeed rejecting, []⟩ heur
       = .error .parserRejectedMarkup := by decide
 example : (construct ⟨fun _ => [], fun _ => [], soupFeed accepting, []⟩ heuristics
     (prepareMarkup (fun _ => ⟨none, none, false⟩) (fun _ => none)) (fun _ => ()) (.str [60])).2 = .ok () := by decide
+
+/-! ## the error-conversion envelope: every call path, every exception class
+
+`Model/Envelope.lean` makes every operation below the constructor that can raise a *primitive* that may raise any
+class (`Prims`), and every `try/except` of the repository a clause (`Code`). `Recorded` lists, per primitive, the
+exact classes it has been observed to raise — the trusted residue, measured by the harness on every run. -/
+
+/-- **No exception other than `ParserRejectedMarkup` escapes the constructor** — for every variant of the clauses
+    `code`, every list of recorded kinds `r` the clauses cover (`Covers`, decidable), every behaviour `P` of the
+    primitives within `r` (UnicodeDammit/EncodingDetector, codecs, `prepare_markup`'s generator, `reset`, the parser
+    object, both tokenizer phases `feed`/`close`, every `handle_*` callback, `int()`/`chr()`/one-byte decodes, the
+    end-of-input flush), every object frame, every initial object and every `str`/`bytes` markup. -/
+theorem envelope {V : Type} (code : Code) (r : Recorded) (hcov : Covers code r = true) (P : Prims V)
+    (hP : P.Within r) (F : Frame V) (o0 : Obj V) (mk : Markup) :
+    (constructE code P F o0 mk).2 = .ok () ∨ (constructE code P F o0 mk).2 = .error .parserRejectedMarkup := by
+  have hc := coversP_of_covers code r hcov
+  unfold constructE construct
+  cases hh : heuristicsE code P mk with
+  | error e =>
+    right
+    simp only
+    rw [heuristicsE_fine code r P hc hP mk e hh]
+  | ok w =>
+    simp only
+    cases hp : prepareMarkupE code P mk with
+    | error e =>
+      right
+      simp only
+      rw [prepareMarkupE_fine code r P hc hP mk e hp]
+    | ok ss =>
+      simp only
+      exact retry_outcome_prm (machineE code P F) (fun o => soupFeedE_outcome code r P hc hP o) o0 ss
+
+/-- the clauses of the working tree cover everything CPython has been recorded to raise … -/
+theorem live_covers_recorded : Covers Code.live Gen.C06.recorded = true := by decide
+
+/-- … so for the repaired code the envelope holds outright, the residue being exactly `P.Within Gen.C06.recorded` -/
+theorem envelope_live {V : Type} (P : Prims V) (hP : P.Within Gen.C06.recorded) (F : Frame V) (o0 : Obj V) (mk : Markup) :
+    (constructE Code.live P F o0 mk).2 = .ok () ∨
+    (constructE Code.live P F o0 mk).2 = .error .parserRejectedMarkup :=
+  envelope Code.live _ live_covers_recorded P hP F o0 mk
+
+/-- … whereas 4.13.0 as shipped does not cover them (three of the four C06 defects are holes in clauses; the fourth is
+    the strict `encode`) -/
+theorem v4130_does_not_cover : Covers Code.v4130 Gen.C06.recorded = false := by decide
+
+/-- non-vacuity of `envelope_live`: the quiet behaviour, and the same with the tokenizer giving up in `close()`, are
+    within the recorded kinds; one yields a tree, the other `ParserRejectedMarkup` -/
+theorem quiet_within : Prims.quiet.Within Gen.C06.recorded := by
+  refine ⟨?_, ?_, ?_, ?_, ?_, ?_, ?_, ?_, ?_, ?_, ?_, ?_, ?_, ?_, ?_, ?_, ?_, ?_⟩ <;>
+    simp only [Prims.quiet, raisesOnly, raisesOnlyO]
+  · intro w c h; cases h
+  · intro x hx c h; simp at hx; rcases hx with rfl | rfl <;> cases h
+  · intro s c h; cases h
+  · intro c b e h; cases h
+  · intro c h; cases h
+  · intro c h; cases h
+  · intro c h; cases h
+  · intro c h; cases h
+  · intro s c h; cases h
+  · intro s c h; cases h
+  · intro s c h
+    unfold pyIntDec at h
+    split at h
+    · injection h with h; subst h; decide
+    · split at h
+      · injection h with h; subst h; decide
+      · cases h
+  · intro s c h
+    unfold pyIntHex at h
+    simp only at h
+    split at h
+    · split at h
+      · injection h with h; subst h; decide
+      · cases h
+    · injection h with h; subst h; decide
+  · intro e n c h; cases h
+  · intro n c h
+    cases hx : cp1252 n with
+    | ok s => rw [hx] at h; cases h
+    | decodeError => rw [hx] at h; injection h with h; subst h; decide
+    | otherError => rw [hx] at h; injection h with h; subst h; decide
+  · intro n c h
+    split at h
+    · cases h
+    · injection h with h; subst h; decide
+  · intro d o c h; cases h
+  · intro k o c h; cases h
+  · intro o c h; cases h
+
+example : (constructE Code.live Prims.quiet Frame.unit (fun _ => ()) (.bytes [60, 112, 62])).2 = .ok () := by decide
+example : predict Code.live .tokClose .assertionError = .prm := by decide
+example : predict Code.v4130 .intOf .valueError = .escapes .valueError := by decide
+example : predict Code.v4130 .tokFeed .valueError = .escapes .valueError := by decide
+example : predict Code.v4130 .dec1 .unicodeError = .escapes .unicodeError := by decide
+
+/-! ### the class hierarchy and the clauses, against the live code -/
+
+/-- `Err.sup` is the `__mro__` of the live classes (builtins and bs4.exceptions), for every named class -/
+theorem mro_table :
+    (∀ row ∈ Gen.C06.excMro, row.1.sup = row.2) ∧ Err.named.all (fun e => Gen.C06.excMro.any (·.1 == e)) = true := by
+  decide +kernel
+
+/-- The whole primitive-level injection matrix of the LIVE constructor (translator: every one of the 16 primitives made
+    to raise every named class and a representative of each open family, 528 runs) equals the model's prediction — the
+    clauses, their nesting, what is outside every `try`, and PEP 479 at the two generator boundaries. (`hookedPoints` = the
+    primitives the harness could hook in this tree: all 16 unless an import style changed; the evidence lists them.) -/
+theorem injection_table :
+    (∀ row ∈ Gen.C06.injections, predict Code.live row.1 row.2.1 = row.2.2) ∧
+    Gen.C06.hookedPoints.all (fun pt => (Err.named ++ [Err.other 0, Err.otherBase 0]).all fun e =>
+      Gen.C06.injections.any fun row => row.1 == pt && row.2.1 == e) = true := by
+  decide +kernel
+
+/-! ### tightness: what each layer lets through, for every class -/
+
+/-- `_codec` absorbs exactly its clause; anything else leaves `find_codec` -/
+theorem lookup_escapes {V : Type} (code : Code) (P : Prims V) (s : Nat) (c : Err) (h : P.lookup s = .error c) :
+    tryLookup code P s = if catches code.codecLookup c then .ok false else .error c := by
+  unfold tryLookup; rw [h]
+
+/-- `_convert_from` absorbs exactly its clause around `str(...)`; anything else leaves it -/
+theorem decode_escapes {V : Type} (code : Code) (P : Prims V) (st : DammitState) (e k : Nat) (b : Bool) (x : Err)
+    (hf : findCodecE code P e = .ok (some k)) (ht : st.tried.contains (k, b) = false) (hd : P.decode k b = .error x)
+    (hx : catches code.convertFrom x = false) : convertFromE code P st e b = .error x := by
+  unfold convertFromE
+  rw [hf]; simp only [ht, Bool.false_eq_true, if_false, hd, hx]
+
+/-- whatever leaves UnicodeDammit or the `declared_html_encoding` property leaves the constructor (after PEP 479): the
+    `for` header is outside every `try` -/
+theorem generator_escapes {V : Type} (code : Code) (P : Prims V) (F : Frame V) (o0 : Obj V) (b : Bytes) (c : Err)
+    (hb : b ≠ []) (hh : ∃ w, heuristicsE code P (.bytes b) = .ok w) (hd : dammitE code P = .error c) :
+    (constructE code P F o0 (.bytes b)).2 = .error (pep479 c) := by
+  obtain ⟨w, hw⟩ := hh
+  unfold constructE construct
+  rw [hw]
+  simp only [prepareMarkupE]
+  have : b.isEmpty = false := by cases b <;> simp_all
+  simp [this, hd]
+
+/-- `feed` converts exactly its clause -/
+theorem feed_converts {V : Type} (code : Code) (o : Obj V) (e : Err) :
+    wrapFeed code (o, some e) = if catches code.feed e then (o, some .parserRejectedMarkup) else (o, some e) := rfl
+
+/-- a class raised by the tokenizer in `feed()` that neither `feed`'s clause nor the constructor's catches ends the
+    attempt as itself -/
+theorem tokenizer_escapes {V : Type} (code : Code) (P : Prims V) (o : Obj V) (e : Err)
+    (hr : P.resetAll = .ok ()) (hn : P.newParser = .ok ())
+    (hev : (handleEventsE code P (P.origOf o) (P.tokFeed (P.markupOf o)).1 o).2 = none)
+    (ht : (P.tokFeed (P.markupOf o)).2 = some e) (h1 : catches code.feed e = false) (h2 : catches code.ctor e = false) :
+    (soupFeedE code P o).2 = .raise e := by
+  unfold soupFeedE builderFeedE runPhase
+  rw [hr, hn]
+  simp only
+  generalize handleEventsE code P (P.origOf o) (P.tokFeed (P.markupOf o)).1 o = x at hev
+  obtain ⟨o', e'⟩ := x
+  simp only at hev
+  subst hev
+  simp only [ht, wrapFeed, h1, Bool.false_eq_true, if_false, h2]
+
+/-- **`Covers` is necessary, not only sufficient** (main conjuncts). Tokenizer: for ANY clauses, a class that neither
+    `feed`'s clause nor the constructor's accepts, raised by `goahead` on a behaviour that is otherwise silent (and within
+    every list of recorded kinds, `silent_within`), leaves the constructor as itself. -/
+theorem covers_necessary_tokenizer (code : Code) (c : Err) (h : okAtFeed code c = false) :
+    (constructE code { Prims.silent with tokFeed := fun _ => ([], some c) } Frame.unit (fun _ => ()) (.str [60])).2
+      = .error c := by
+  unfold okAtFeed okAtCtor at h
+  simp only [Bool.or_eq_false_iff] at h
+  obtain ⟨h1, h2, h3⟩ := h
+  simp [constructE, construct, heuristicsE, heuristics, heuristicsOld, heuristicsGuard, Markup.units, prepareMarkupE,
+    retry, attempt, machineE, Frame.unit, assignAll, soupFeedE, builderFeedE, runPhase, handleEventsE, wrapFeed,
+    Prims.silent, Prims.quiet, h1, h2]
+
+/-- `str(bytes, codec, errors)`: what `_convert_from`'s clause does not absorb leaves through the generator -/
+theorem covers_necessary_decode (code : Code) (c : Err) (h : catches code.convertFrom c = false) :
+    (constructE code { Prims.silent with decode := fun _ _ => .error c } Frame.unit (fun _ => ()) (.bytes [60])).2
+      = .error (pep479 c) := by
+  simp [constructE, construct, heuristicsE, heuristics, heuristicsOld, heuristicsGuard, Markup.units, prepareMarkupE,
+    dammitE, pass1E, convertFromE, findCodecE, findCodecGo, tryLookup,
+    Prims.silent, Prims.quiet, h]
+
+/-- `codecs.lookup`: what `_codec`'s clause does not absorb leaves `find_codec`, `_convert_from` (called outside its
+    `try`), UnicodeDammit and the generator -/
+theorem covers_necessary_lookup (code : Code) (c : Err) (h : catches code.codecLookup c = false) :
+    (constructE code { Prims.silent with lookup := fun _ => .error c } Frame.unit (fun _ => ()) (.bytes [60])).2
+      = .error (pep479 c) := by
+  simp [constructE, construct, heuristicsE, heuristics, heuristicsOld, heuristicsGuard, Markup.units, prepareMarkupE,
+    dammitE, pass1E, convertFromE, findCodecE, findCodecGo, tryLookup,
+    Prims.silent, Prims.quiet, h]
+
+/-- anything raised inside the candidate generator leaves the constructor (after PEP 479, applied once) -/
+theorem covers_necessary_generator (code : Code) (c : Err) :
+    (constructE code { Prims.silent with cands := [.error c] } Frame.unit (fun _ => ()) (.bytes [60])).2
+      = .error (pep479 c) := by
+  simp [constructE, construct, heuristicsE, heuristics, heuristicsOld, heuristicsGuard, Markup.units, prepareMarkupE,
+    dammitE, pass1E, pep479_idem]
+
+/-- with `close()` outside `feed`'s `try`, a class of the second tokenizer phase that the constructor's clause does not
+    accept leaves -/
+theorem covers_necessary_close (code : Code) (c : Err) (hg : code.closeGuarded = false) (h : okAtCtor code c = false) :
+    (constructE code { Prims.silent with tokClose := fun _ => ([], some c) } Frame.unit (fun _ => ()) (.str [60])).2
+      = .error c := by
+  unfold okAtCtor at h
+  simp only [Bool.or_eq_false_iff] at h
+  obtain ⟨h2, h3⟩ := h
+  simp [constructE, construct, heuristicsE, heuristics, heuristicsOld, heuristicsGuard, Markup.units, prepareMarkupE,
+    retry, attempt, machineE, Frame.unit, assignAll, soupFeedE, builderFeedE, runPhase, handleEventsE, wrapFeed,
+    Prims.silent, Prims.quiet, hg, h2]
+
+/-- `int()`: what neither `handle_charref`'s clause nor `feed`'s nor the constructor's accepts leaves -/
+theorem covers_necessary_int (code : Code) (c : Err) (hi : catches code.charrefInt c = false)
+    (h : okAtFeed code c = false) :
+    (constructE code { Prims.silent with tokFeed := fun _ => ([.charref [49]], none), intDec := fun _ => .error c }
+      Frame.unit (fun _ => ()) (.str [60])).2 = .error c := by
+  unfold okAtFeed okAtCtor at h
+  simp only [Bool.or_eq_false_iff] at h
+  obtain ⟨h1, h2, h3⟩ := h
+  simp [constructE, construct, heuristicsE, heuristics, heuristicsOld, heuristicsGuard, Markup.units, prepareMarkupE,
+    retry, attempt, machineE, Frame.unit, assignAll, soupFeedE, builderFeedE, runPhase, handleEventsE, wrapFeed,
+    handleCharrefE, charrefNumberE, absorb,
+    Prims.silent, Prims.quiet, hi, h1, h2]
+
+example : okAtFeed Code.live .typeError = false := by decide
+example : okAtFeed Code.v4130 .valueError = false := by decide
+example : catches Code.live.convertFrom .keyboardInterrupt = false := by decide
+
+/-- with `close()` outside the `try` (seeded change C06-r2m1) an `AssertionError` of the second phase escapes -/
+theorem close_must_be_guarded :
+    predict { Code.live with closeGuarded := false } .tokClose .assertionError = .escapes .assertionError := by decide
+
+/-- with a narrower clause in `_convert_from` (seeded change C06-m2) a `ValueError` of `str()` escapes -/
+theorem convert_clause_must_be_broad :
+    predict { Code.live with convertFrom := [.unicodeError, .lookupError] } .decode .valueError = .escapes .valueError := by
+  decide
+
+/-! ### the earlier models are instances of the envelope model -/
+
+/-- the repaired `handle_charref` of `Construct.lean` is the envelope model at CPython's concrete `int`/`chr`/codecs -/
+theorem charref_envelope_live {V : Type} (P : Prims V) (f : Nat → Nat → Dec1) (hP : P.CharrefConcrete f)
+    (orig : Option Nat) (name : PStr) :
+    handleCharrefE Code.live P orig name = handleCharref (orig.map f) name := by
+  unfold handleCharrefE handleCharref
+  rw [charrefNumberE_concrete P f hP]
+  have key := fun n => handleCharrefE_core P f hP Code.live true rfl rfl orig n
+  cases hn : charrefNumber name with
+  | error e =>
+    have := charrefNumber_error name e hn
+    subst this
+    have h1 : absorb Code.live.charrefInt (Gen.C06.maxUnicode + 1) (Except.error Err.valueError : Except Err Nat)
+        = .ok (Gen.C06.maxUnicode + 1) := by decide
+    rw [h1]
+    dsimp only
+    exact key _
+  | ok n =>
+    have h1 : absorb Code.live.charrefInt (Gen.C06.maxUnicode + 1) (Except.ok n : Except Err Nat) = .ok n := rfl
+    rw [h1]
+    dsimp only
+    exact key n
+
+/-- … and the 4.13.0 one at the 4.13.0 clauses -/
+theorem charref_envelope_v4130 {V : Type} (P : Prims V) (f : Nat → Nat → Dec1) (hP : P.CharrefConcrete f)
+    (orig : Option Nat) (name : PStr) :
+    handleCharrefE Code.v4130 P orig name = handleCharrefOld (orig.map f) name := by
+  unfold handleCharrefE handleCharrefOld
+  rw [charrefNumberE_concrete P f hP]
+  have key := fun n => handleCharrefE_core P f hP Code.v4130 false rfl rfl orig n
+  cases hn : charrefNumber name with
+  | error e =>
+    have h1 : absorb Code.v4130.charrefInt (Gen.C06.maxUnicode + 1) (Except.error e : Except Err Nat) = .error e := rfl
+    rw [h1]
+  | ok n =>
+    have h1 : absorb Code.v4130.charrefInt (Gen.C06.maxUnicode + 1) (Except.ok n : Except Err Nat) = .ok n := rfl
+    rw [h1]
+    dsimp only
+    exact key n
+
+/-- so every fact about the concrete conversion holds of the envelope model at CPython's behaviour, e.g. `charref_spec`:
+    for `str` input the reference stands for `charrefSpec` of its number -/
+theorem charref_envelope_spec {V : Type} (P : Prims V) (f : Nat → Nat → Dec1) (hP : P.CharrefConcrete f) (name : PStr)
+    (n : Nat) (h : charrefNumber name = .ok n) : handleCharrefE Code.live P none name = .ok (charrefSpec n) := by
+  rw [charref_envelope_live P f hP none name]
+  exact charref_spec name n h
+
+example : Prims.quiet.CharrefConcrete (fun _ n => .ok [n]) := ⟨rfl, rfl, fun _ _ => rfl, fun _ => rfl, fun _ => rfl⟩
+example : handleCharrefE Code.live Prims.quiet none (BS.ofS "150") = .ok [0x2013] := by decide
+
+/-- When nothing on the UnicodeDammit path raises beyond what `_codec`'s and `_convert_from`'s clauses absorb, the
+    exception-aware model computes exactly `dammit` of `Construct.lean` on the absorbed view of the primitives … -/
+theorem dammit_envelope_refines {V : Type} (code : Code) (P : Prims V) (encs : List Nat)
+    (hq : Prims.DammitQuiet code P encs) : dammitE code P = .ok (dammit (Prims.env code P) encs) :=
+  dammitE_eq code P encs hq
+
+/-- … hence `dammit_some_of_fallback` carries over: UnicodeDammit ends with text as soon as one candidate other than
+    the literal `ascii` decodes with `errors="replace"`, whatever the other candidates' codecs raise -/
+theorem dammitE_some_of_fallback {V : Type} (code : Code) (P : Prims V) (encs : List Nat)
+    (hq : Prims.DammitQuiet code P encs)
+    (h : ∃ e ∈ encs, P.isAscii e = false ∧ ∃ c t, findCodecE code P e = .ok (some c) ∧ P.decode c true = .ok t) :
+    ∃ d, dammitE code P = .ok d ∧ d.unicodeMarkup.isSome = true := by
+  refine ⟨_, dammitE_eq code P encs hq, ?_⟩
+  apply dammit_some_of_fallback
+  obtain ⟨e, he, ha, c, t, hf, hd⟩ := h
+  exact ⟨e, he, ha, c, t, by simp [Prims.env, hf], by simp [Prims.env, hd]⟩
+
+example : Prims.DammitQuiet Code.live Prims.quiet [1, 2] :=
+  ⟨rfl, fun e => ⟨some e, rfl⟩, fun _ _ _ h => by simp [Prims.quiet] at h, rfl⟩
+
+/-! ### the object when the constructor returns -/
+
+/-- Whenever the constructor's loop returns normally, for ANY list of strategies: the list splits into rejected
+    strategies, the accepted one and a rest never looked at, and the object is exactly a complete clean parse of the
+    accepted strategy from the initial object (`endOfInput` run, `markup`/`builder.soup` cleared) — never half-built,
+    nothing of the rejected attempts in it. -/
+theorem retry_ok_state {V : Type} (m : Machine V) (R H : List Field) (wf : m.WF R H) (o0 : Obj V) (ss : List Strategy)
+    (h : (retry m o0 ss).2 = .ok ()) :
+    ∃ pre s post, ss = pre ++ s :: post ∧ (∀ r ∈ pre, (attempt m o0 r).2 = .reject) ∧
+      (attempt m o0 s).2 = .accept ∧ retry m o0 ss = (assignAll m.finish (attempt m o0 s).1, .ok ()) := by
+  -- find the first strategy whose clean attempt does not reject
+  have key : ∀ (rest pre : List Strategy), ss = pre ++ rest → (∀ r ∈ pre, (attempt m o0 r).2 = .reject) →
+      ∃ pre' s post, ss = pre' ++ s :: post ∧ (∀ r ∈ pre', (attempt m o0 r).2 = .reject) ∧
+        (attempt m o0 s).2 = .accept := by
+    intro rest
+    induction rest with
+    | nil =>
+      intro pre hs hpre
+      exfalso
+      rw [List.append_nil] at hs
+      subst hs
+      have := retry_all_reject m R H wf o0 _ hpre
+      rw [this] at h; cases h
+    | cons s rest ih =>
+      intro pre hs hpre
+      cases hso : (attempt m o0 s).2 with
+      | accept => exact ⟨pre, s, rest, hs, hpre, hso⟩
+      | reject =>
+        apply ih (pre ++ [s]) (by rw [hs]; simp)
+        intro r hr
+        simp only [List.mem_append, List.mem_singleton] at hr
+        rcases hr with hr | rfl
+        · exact hpre r hr
+        · exact hso
+      | raise e =>
+        exfalso
+        have := retry_raise_propagates m R H wf o0 pre s rest e hpre hso
+        rw [← hs, h] at this; cases this
+  obtain ⟨pre, s, post, hs, hpre, hacc⟩ := key ss [] rfl (by simp)
+  exact ⟨pre, s, post, hs, hpre, hacc, by rw [hs]; exact retry_first_accept m R H wf o0 pre s post hpre hacc⟩
+
+/-- **The object the constructor returns, on every call path.** In the envelope model (every primitive free to raise),
+    whenever the constructor returns normally the object is exactly `finish` of one complete, accepted, clean attempt of
+    a strategy `prepare_markup` yielded, run from the initial object; every strategy before it was rejected. The only
+    assumptions are frames: the callbacks write only fields that `reset()`/the loop header re-assign
+    (`feed_touches_reassigned` for the live code). -/
+theorem constructE_ok_state {V : Type} (code : Code) (P : Prims V) (F : Frame V) (R H : List Field) (hF : F.WF R H)
+    (hf : P.Frames (R ++ H)) (o0 : Obj V) (mk : Markup) (h : (constructE code P F o0 mk).2 = .ok ()) :
+    ∃ ss pre s post, prepareMarkupE code P mk = .ok ss ∧ ss = pre ++ s :: post ∧
+      (∀ r ∈ pre, (attempt (machineE code P F) o0 r).2 = .reject) ∧
+      (attempt (machineE code P F) o0 s).2 = .accept ∧
+      (constructE code P F o0 mk).1 = assignAll F.finish (attempt (machineE code P F) o0 s).1 := by
+  unfold constructE construct at h ⊢
+  cases hh : heuristicsE code P mk with
+  | error e => simp [hh] at h
+  | ok w =>
+    simp only [hh] at h ⊢
+    cases hp : prepareMarkupE code P mk with
+    | error e => simp [hp] at h
+    | ok ss =>
+      simp only [hp] at h ⊢
+      obtain ⟨pre, s, post, hs, hpre, hacc, hret⟩ :=
+        retry_ok_state (machineE code P F) R H (machineE_wf code P F R H hF hf) o0 ss h
+      exact ⟨ss, pre, s, post, rfl, hs, hpre, hacc, by rw [hret]; rfl⟩
+
+/-- non-vacuity: the quiet behaviour over `Unit` satisfies the frames and returns normally -/
+example : Prims.quiet.Frames [] :=
+  ⟨fun _ _ => AgreeOff.refl _ _, fun _ _ => AgreeOff.refl _ _, fun _ => AgreeOff.refl _ _⟩
+example : Frame.unit.WF [] [] := ⟨fun _ => rfl, fun _ => rfl, fun _ _ _ => rfl⟩
+
+example : ∃ pre s post, [({ markup := [] } : Strategy), { markup := [1, 2] }] = pre ++ s :: post ∧
+    (attempt demo (fun _ => 99) s).2 = .accept := ⟨[{ markup := [] }], { markup := [1, 2] }, [], rfl, by decide⟩
+
+/-! ### further non-vacuity: concrete instances of the hypotheses of the theorems above -/
+
+/-- a machine whose second strategy crashes with a foreign exception -/
+def demoRaise : Machine Nat :=
+  { demo with feed := fun o => if o "markup" == 0 then (o.set "contents" 7, .reject) else (o, .raise .keyError) }
+
+theorem demoRaise_wf : demoRaise.WF ["contents"] ["markup"] where
+  headerKeys _ := rfl
+  freshKeys _ := rfl
+  freshFrame _ _ _ := rfl
+  feedFrame o := by
+    intro f hf
+    have : f ≠ "contents" := fun h => hf (by simp [h])
+    simp only [demoRaise]
+    split <;> simp [Obj.set, this]
+
+example : (attempt demoRaise (fun _ => 99) { markup := [] }).2 = .reject := by decide
+example : (attempt demoRaise (fun _ => 99) { markup := [1] }).2 = .raise .keyError := by decide
+example : (retry demoRaise (fun _ => 99) [{ markup := [] }, { markup := [1] }, { markup := [] }]).2 = .error .keyError := by
+  decide
+example : retryIndex [.reject, .raise .keyError, .accept] 0 = some (1, .raise .keyError) := by decide
+
+example : heuristicsOld (.str (BS.ofS "notes.txt")) = .ok .filename := by decide
+example : handleCharrefOld none (BS.ofS "65") = .ok [65] := by decide
+example : charrefNumber (BS.ofS "150") = .ok 150 := by decide
+example : charrefNumber (BS.ofS "x1F600") = .ok 0x1F600 := by decide
+example : charrefSpec 0x1F600 = [0x1F600] := by decide
+example : ∃ e ∈ [1, 2], envDemo.isAscii e = false ∧ ∃ c t, envDemo.codecOf e = some c ∧ envDemo.decode c true = some t :=
+  ⟨2, by simp, by decide, 2, [120, 0xFFFD], by decide, by decide⟩
+
+/-- the hypotheses of `tokenizer_escapes`, `decode_escapes`, `generator_escapes` at concrete behaviours -/
+def tokTypeError : Prims Unit := { Prims.silent with tokFeed := fun _ => ([], some .typeError) }
+example : tokTypeError.resetAll = .ok () ∧ tokTypeError.newParser = .ok () ∧
+    (handleEventsE Code.live tokTypeError none (tokTypeError.tokFeed []).1 (fun _ => ())).2 = none ∧
+    (tokTypeError.tokFeed []).2 = some .typeError ∧ catches Code.live.feed .typeError = false ∧
+    catches Code.live.ctor .typeError = false := by decide
+example : (soupFeedE Code.live tokTypeError (fun _ => ())).2 = .raise .typeError := by decide
+
+def decodeInterrupt : Prims Unit := { Prims.silent with decode := fun _ _ => .error .keyboardInterrupt }
+example : findCodecE Code.live decodeInterrupt 1 = .ok (some 1) ∧
+    decodeInterrupt.decode 1 false = .error .keyboardInterrupt ∧
+    catches Code.live.convertFrom .keyboardInterrupt = false := by decide
+example : dammitE Code.live decodeInterrupt = .error .keyboardInterrupt := by decide
+example : ∃ w, heuristicsE Code.live decodeInterrupt (.bytes [60]) = .ok w := ⟨.none, by decide⟩
+example : (constructE Code.live decodeInterrupt Frame.unit (fun _ => ()) (.bytes [60])).2 = .error .keyboardInterrupt := by
+  decide
+
+/-- PEP 479 is visible: a `StopIteration` raised by `codecs.lookup` inside the generator reaches the caller as
+    `RuntimeError` -/
+example : (constructE Code.live { Prims.silent with lookup := fun _ => .error .stopIteration } Frame.unit (fun _ => ())
+    (.bytes [60])).2 = .error .runtimeError := by decide
+
+example : ∃ e ∈ [1, 2], Prims.quiet.isAscii e = false ∧ ∃ c t, findCodecE Code.live Prims.quiet e = .ok (some c) ∧
+    Prims.quiet.decode c true = .ok t := ⟨1, by simp, rfl, 1, [120], rfl, rfl⟩
 
 end BS.Props.C06
